@@ -54,7 +54,7 @@ CONFIG_SPACE = [
     ("form", [(2, False, True), (2, True, True), (1, False, True), (1, True, True), (1, False, False), (1, True, False), (2, False, False), (2, True, False)]),
     ("vidx", [0, 1, 2, 3, 4, 5, 6]),
     ("fi", [None, ("ORGONLY", None), ("Org & Co <1>", "fid>9")]),
-    ("clientuid", [None, "CLIENT-UID-0123456789"]),
+    ("clientuid", ["CLIENT-UID-0123456789", None]),  # set by default: the version-103 threshold is then two deviations away
     ("app", [None, ("MYAPP", "0001")]),
     ("language", [None, "FRA"]),
     ("creds", ["plain", "printable"]),
@@ -434,6 +434,80 @@ def run_config(t, cfg, seed, seqs, extras):
         t.count("compositions")
 
 
+# ---------------------------------------------------------------------------------------------
+# histories on one client: earlier calls (succeeding, failing, with per-call overrides) must not change what a later
+# call composes
+# ---------------------------------------------------------------------------------------------
+DISTURB = ["profile-override-dry", "profile-override-refused", "profile-override-neterror", "statements-bad-request", "accounts-dry", "serialize-override", "statements-neterror"]
+
+
+def disturb(cl, pw, cfg, which, net):
+    import urllib.error
+
+    from ofxtools.Client import StmtRq
+    from ofxtools.models.ofx import OFX
+
+    v1 = cfg["version"] < 200
+    other = 203 if v1 else 102
+    try:
+        if which == "profile-override-dry":
+            cl.request_profile(version=other, prettyprint=not cfg["pretty"], close_elements=True, dryrun=True)
+        elif which == "profile-override-refused":
+            # a 2xx version with end tags off is refused locally
+            cl.request_profile(version=220, close_elements=False, dryrun=True)
+        elif which == "profile-override-neterror":
+            def boom(ex):
+                raise urllib.error.URLError("scripted failure")
+            net.handler = boom
+            cl.request_profile(version=other if cfg["close"] else (160 if cfg["version"] != 160 else 103), prettyprint=True)
+        elif which == "statements-bad-request":
+            cl.request_statements(pw, StmtRq(acctid="1", accttype="NOT-A-TYPE"), dryrun=True)
+        elif which == "accounts-dry":
+            cl.request_accounts(pw, DATES[1], dryrun=True)
+        elif which == "serialize-override":
+            cl.serialize(OFX(signonmsgsrqv1=cl.signon(pw)), version=other, prettyprint=not cfg["pretty"], close_elements=True)
+        else:
+            def boom(ex):
+                raise urllib.error.URLError("scripted failure")
+            net.handler = boom
+            cl.request_statements(pw, StmtRq(acctid="1", accttype="CHECKING"), skip_profile=True)
+    except Exception:
+        return "raised"
+    return "ok"
+
+
+def history_work(chunk):
+    from vf import fakehttp as F
+    from vf.core import private_xdg
+
+    private_xdg()
+    net = F.Net()
+    net.install()
+    t = Tally()
+    try:
+        for cfg, seed, hist in chunk:
+            cl, user, pw = make_client(cfg, seed)
+            outcomes = [disturb(cl, pw, cfg, d, net) for d in hist]
+            t.outcome("disturb-" + "+".join(sorted(set(outcomes))))
+            specs = [make_request(k, i, 3) for i, k in enumerate(("StmtRq", "InvStmtRq"))]
+            case = {"cfg": cfg, "call": "history", "history": list(hist)}
+            t0 = now_ms()
+            try:
+                data = cl.request_statements(pw, *[lib_request(s_) for s_ in specs], dryrun=True).read()
+            except Exception as e:
+                t.count("evaluations")
+                t.fail(f"C06|after-{'+'.join(hist)}|compose-raises-{type(e).__name__}", case, f"{type(e).__name__}: {str(e)[:200]}")
+                continue
+            t1 = now_ms()
+            exp = expected_ofx(expected_signon(cfg, user, pw, cfg["version"]), [expected_wrapper(s_, i) for i, s_ in enumerate(specs)])
+            check_bytes(t, f"C06|after-{'+'.join(hist)}", case, cfg, cfg["version"], data, exp, t0, t1)
+            t.count("compositions")
+            t.count("histories")
+    finally:
+        net.uninstall()
+    return t
+
+
 def all_seqs(nmax):
     out = []
     for n in range(0, nmax + 1):
@@ -444,7 +518,13 @@ def all_seqs(nmax):
 
 def work(chunk):
     t = Tally()
-    for cfg, seed, seqs, extras in chunk:
+    hist = [j[1:] for j in chunk if j[0] == "history"]
+    if hist:
+        t.merge(history_work(hist))
+    for job in chunk:
+        if job[0] == "history":
+            continue
+        cfg, seed, seqs, extras = job
         run_config(t, cfg, seed, seqs, extras)
         t.count("configs")
     return t
@@ -471,7 +551,18 @@ def run(ctx):
             sq = base_seqs
         sg = single if i == 0 else single[(i % 40)::40]
         jobs.append((cfg, ctx.seed, sq + sg, EXTRAS))
-    tally = ctx.pmap(work, jobs, chunk=1)
+    # call histories on one client: every sequence of <= 2 disturbing calls, on one configuration per wire form
+    hcfgs = [c for c in configs(1) if c["clientuid"] and not c["fi"] and not c["app"] and not c["language"] and c["creds"] == "plain" and not (c["version"] >= 200 and not c["close"])]
+    hseqs = [()] + [(d,) for d in DISTURB] + list(itertools.product(DISTURB, repeat=2))
+    if ctx.thorough:
+        hseqs += list(itertools.product(DISTURB, repeat=3))
+    hjobs = [("history", c, ctx.seed, h) for c in hcfgs for h in hseqs]
+    jobs += [tuple(j) for j in hjobs]
+    tally = ctx.pmap(work, jobs, chunk=1 if len(jobs) < 4000 else 8)
+    if tally.counts.get("histories", 0) < 200:
+        raise HarnessError(f"vacuous: {tally.counts}")
+    if not tally.fails and not any(o.startswith("disturb-") and "raised" in o for o in tally.outcomes):
+        raise HarnessError("vacuous: no disturbing call ever failed")
     if tally.counts.get("compositions", 0) < 5000:
         raise HarnessError(f"vacuous: {tally.counts}")
     if not tally.fails:
@@ -486,7 +577,9 @@ def run(ctx):
         " over wire form (v2/v1 x pretty x end tags, one dimension) x version within the major version x FI {none, ORG, ORG+FID with markup chars} x CLIENTUID x app id/version x language x credentials {plain, all 95 printable "
         "ASCII characters} x request lists: all 156 sequences of length 0..3 over the five statement request kinds (account ids with & < > quotes, 5 date options incl. -5:30, +14:00, "
         "-0:30 and sub-ms, flags) + every single-request flag/date variant (400 per kind, spread over configurations) + account-info, profile and 4 tax requests; all dryrun; "
-        "each composition read by the strict reference reader and by the library, both compared with the expected request; distinct_nontrivial = compositions",
+        "each composition read by the strict reference reader and by the library, both compared with the expected request; + call histories: on one client per wire form every sequence of <= "
+        + ("3" if ctx.thorough else "2") + " earlier calls out of 7 (per-call version/format overrides that succeed, are refused locally or fail on the network; a request that cannot be composed; "
+        "plain dry runs) followed by a composition that must still obey the client's configuration; distinct_nontrivial = compositions",
         "configs": tally.counts["configs"],
         "exhaustive": True,
     }
